@@ -123,6 +123,8 @@ class Support:
                 k = self.kind(nm)
                 if k in ("lambda", "method", "alias"):
                     return frozenset({(nm,)})
+                if e.args and all(isinstance(a, ast.Name) and a.id == "t" for a in e.args) and not e.keywords:
+                    return frozenset({(nm,)})       # a user-supplied function of time only (self.force(t)): a datum for q and u
                 self.top_reason = f"call of unknown self.{nm}"
                 return TOP
             if last in ("zeros", "zeros_like", "empty"):
